@@ -211,12 +211,13 @@ impl Mode {
 
     /// Convenience function to push a value onto the stack
     pub fn push_value(&self, block: &mut Block, value: Expression) -> Result<(), Error> {
-        match self {
-            Mode::X86 => block.assign(self.sp(), Expr::sub(self.sp().into(), expr_const(4, 32))?),
-            Mode::Amd64 => block.assign(self.sp(), Expr::sub(self.sp().into(), expr_const(8, 64))?),
-        };
+        // The stack pointer moves by the size of the pushed value (2 bytes with an operand-size
+        // prefix), and the value is read before it moves (`push rsp` stores the old rsp).
+        let size = expr_const((value.bits() / 8) as u64, self.bits());
+        let new_sp = Expr::sub(self.sp().into(), size)?;
 
-        block.store(self.sp().into(), value);
+        block.store(new_sp.clone(), value);
+        block.assign(self.sp(), new_sp);
         Ok(())
     }
 }
